@@ -78,19 +78,23 @@ def r1(fx):
             bad = (m, got, _runs(m, 3, 4, 1))
     yield ob(f'matrix_to_lines on {n} small matrices', bad is None, fn, got=f'{bad[0]}: {bad[1]}' if bad else 'maximal dark runs',
              want=f'{bad[2]}' if bad else 'maximal dark runs')
-    want = {'write_svg': 'matrix_to_lines(matrix, x, y)', 'write_eps': 'matrix_to_lines(matrix, border, y, incby=-1)',
-            'write_pdf': 'matrix_to_lines(matrix, 0, 0, incby=-1)', 'write_tex': 'matrix_to_lines(matrix, x, y, incby=-1)'}
-    for w, p in want.items():
+    want = {'write_svg': ('matrix_to_lines(matrix, H_x, H_y)', '(border, border + .5)'), 'write_eps': ('matrix_to_lines(matrix, border, H_y, incby=-1)', None),
+            'write_pdf': ('matrix_to_lines(matrix, 0, 0, incby=-1)', None), 'write_tex': ('matrix_to_lines(matrix, H_x, H_y, incby=-1)', '(border, -border)')}
+    for w, (p, origin) in want.items():
         fnw = fx.fn('writers', w)
         calls = [c for c in src.calls_in(fnw, 'matrix_to_lines')]
         c = single(calls, f'matrix_to_lines call in {w}')
-        yield ob(f'{w}: draws matrix_to_lines(matrix, ...)', pat.match(c, p) is not None, c, got=ast.unparse(c), want=p)
-    svg = fx.fn('writers', 'write_svg')
-    a = single([s for s in src.statements(svg.body) if isinstance(s, ast.Assign) and ast.unparse(s.targets[0]) in ('(x, y)', 'x, y') and 'border' in ast.unparse(s.value)], 'SVG origin')
-    yield ob('SVG origin: (border, border + 0.5)', nf.norm(a.value) == nf.norm(ast.parse('(border, border + .5)', mode='eval').body), a, got=ast.unparse(a.value), want='border, border + .5')
-    tex = fx.fn('writers', 'write_tex')
-    a = single([s for s in src.statements(tex.body) if isinstance(s, ast.Assign) and ast.unparse(s.targets[0]) in ('(x, y)', 'x, y')], 'TeX origin')
-    yield ob('TeX origin: (border, -border)', nf.norm(a.value) == nf.norm(ast.parse('(border, -border)', mode='eval').body), a, got=ast.unparse(a.value), want='border, -border')
+        b = pat.match(c, p)
+        yield ob(f'{w}: draws matrix_to_lines(matrix, ...)', b is not None, c, got=ast.unparse(c), want=p.replace('H_', ''))
+        if origin and b is not None:
+            # the start point: `x, y = <origin>` (a tuple assignment) feeding the call
+            need(isinstance(b['x'], ast.Name) and isinstance(b['y'], ast.Name), f'{w}: origin arguments')
+            asg = [s for s in src.statements(fnw.body) if isinstance(s, ast.Assign) and isinstance(s.targets[0], ast.Tuple)
+                   and [ast.unparse(t) for t in s.targets[0].elts] == [b['x'].id, b['y'].id]]
+            blk, idx = nf.block_of(nf.enclosing_stmt(c))
+            asg = [s for s in asg if s in blk[:idx]] or asg
+            a = single(asg, f'{w}: origin assignment')
+            yield ob(f'{w}: origin = {origin}', nf.same(a.value, origin), a, got=ast.unparse(a.value), want=origin)
 
 
 @rule('C10', 'R2', 14, 'scale transform is emitted exactly when scale != 1 (SVG, EPS, PDF siblings)')
@@ -112,7 +116,7 @@ def r2(fx):
         bad = [sc for sc in scales if bool(ev.ev(cond, {'scale': sc})) != (sc != 1)]
         yield ob(f'{w}: transform guard', not bad and len(g) == 1, s, got=f'if {ast.unparse(cond)} (differs from scale != 1 at {bad})', want='if scale != 1')
     g = single([s for s in svg.body if isinstance(s, ast.Assign) and ast.unparse(s.targets[0]) == 'need_svg_group'], 'need_svg_group')
-    yield ob('SVG: the transform sits on the group when there is more than one path, else on the path', nf.norm(g.value) == nf.norm(ast.parse('scale != 1 and (need_background or is_multicolor)', mode='eval').body),
+    yield ob('SVG: the transform sits on the group when there is more than one path, else on the path', nf.same(g.value, 'scale != 1 and (need_background or is_multicolor)'),
              g, got=ast.unparse(g.value), want='scale != 1 and (need_background or is_multicolor)')
     p = single([s for s in svg.body if isinstance(s, ast.Assign) and ast.unparse(s.targets[0]) == 'p'], 'SVG path prefix')
     yield ob('SVG path carries the transform iff there is no group', "scale_info if not need_svg_group else ''" in ast.unparse(p.value), p,
@@ -145,17 +149,19 @@ def r3(fx):
 @rule('C10', 'R4', 5, 'units: PDF background (page units) before the transform; SVG background sized in module units; EPS background fills the clip path')
 def r4(fx):
     pdf = fx.fn('writers', 'write_pdf')
-    bg = single([s for s in pdf.body if isinstance(s, ast.If) and nf.norm(s.test) == 'light is not None'], 'PDF background block')
+    bg = single([s for s in pdf.body if isinstance(s, ast.If) and nf.same(s.test, 'light is not None')], 'PDF background block')
     tr = single([s for s in pdf.body if isinstance(s, ast.If) and 'cm' in ast.unparse(s) and 'scale' in ast.unparse(s.test)], 'PDF transform block')
     yield ob('PDF: background rectangle is emitted before the scale transform', pdf.body.index(bg) < pdf.body.index(tr), bg,
              got=f'background at line {bg.lineno}, transform at line {tr.lineno}', want='background first')
     rect = [ast.unparse(s.value.args[0]) for s in bg.body if isinstance(s, ast.Expr) and isinstance(s.value, ast.Call)]
-    yield ob('PDF: background = fill colour, 0 0 width height re, f', len(rect) == 3 and rect[1] == "f'0 0 {width} {height} re'" and rect[2] == "'f q'"
+    wh = nf.unpack_targets(pdf, lambda c: src.call_name(c) == '_valid_width_height_and_border')
+    need(wh is not None and len(wh) == 3, 'write_pdf: size unpacking')
+    yield ob('PDF: background = fill colour, 0 0 width height re, f', len(rect) == 3 and rect[1] == f"f'0 0 {{{wh[0]}}} {{{wh[1]}}} re'" and rect[2] == "'f q'"
              and 'rg' in rect[0] and 'to_pdf_color(light)' in rect[0], bg, got=rect, want="['... rg', '0 0 {width} {height} re', 'f q']")
     svg = fx.fn('writers', 'write_svg')
     b1 = single([s for s in src.statements(svg.body) if isinstance(s, ast.Assign) and 'coordinates[colormap[consts.TYPE_QUIET_ZONE]]' in ast.unparse(s.targets[0])], 'SVG background start')
     names = {x.id for x in ast.walk(b1.value) if isinstance(x, ast.Name)}
-    yield ob('SVG: background path starts at (0, 0) with a horizontal length in module units', nf.norm(b1.value) == nf.norm(ast.parse('[(0, 0, matrix_size[0] + 2 * border)]', mode='eval').body),
+    yield ob('SVG: background path starts at (0, 0) with a horizontal length in module units', nf.same(b1.value, '[(0, 0, matrix_size[0] + 2 * border)]'),
              b1, got=ast.unparse(b1.value), want='[(0, 0, matrix_size[0] + 2 * border)]')
     rep = [n for n in ast.walk(svg) if isinstance(n, ast.JoinedStr) and 'z"/>' in ast.unparse(n)]
     need(rep, 'SVG background closing path not found')
@@ -177,7 +183,7 @@ def r5(fx):
         a = single([s for s in fn.body + [x for st in fn.body if isinstance(st, ast.With) for x in st.body] if isinstance(s, ast.Assign) and ast.unparse(s.targets[0]) == 'y'
                     and 'get_symbol_size' in ast.unparse(s.value)], f'baseline in {w}')
         forms[w] = nf.norm(a.value)
-        yield ob(f'{w}: y = rows + border - 0.5', nf.norm(a.value) == nf.norm(ast.parse('get_symbol_size(matrix_size, scale=1, border=0)[1] + border - .5', mode='eval').body), a,
+        yield ob(f'{w}: y = rows + border - 0.5', nf.same(a.value, 'get_symbol_size(matrix_size, scale=1, border=0)[1] + border - .5'), a,
                  got=ast.unparse(a.value), want='get_symbol_size(matrix_size, scale=1, border=0)[1] + border - .5')
     pdf = fx.fn('writers', 'write_pdf')
     c = [ast.unparse(s.value) for s in pdf.body if isinstance(s, ast.Expr) and "cm'" in ast.unparse(s) and 'border' in ast.unparse(s)]
@@ -251,24 +257,31 @@ def r6(fx):
 @rule('C10', 'R7', 8, 'page fields from the validated size; stroke from dark, fill from light')
 def r7(fx):
     svg = fx.fn('writers', 'write_svg')
-    txt = [ast.unparse(s) for s in src.statements(svg.body) if isinstance(s, ast.AugAssign)]
-    yield ob('SVG width/height', 'svg += f\' width="{width}{unit}" height="{height}{unit}"\'' in txt, svg, got=[t for t in txt if 'width=' in t], want='width="{width}{unit}" height="{height}{unit}"')
-    yield ob('SVG viewBox', 'svg += f\' viewBox="0 0 {width} {height}"\'' in txt, svg, got=[t for t in txt if 'viewBox' in t], want='viewBox="0 0 {width} {height}"')
+    wh = nf.unpack_targets(svg, lambda c: src.call_name(c) == '_valid_width_height_and_border')
+    need(wh is not None and len(wh) == 3, 'write_svg: size unpacking')
+    txt = [ast.unparse(s.value) for s in src.statements(svg.body) if isinstance(s, ast.AugAssign)]
+    yield ob('SVG width/height', f'f\' width="{{{wh[0]}}}{{unit}}" height="{{{wh[1]}}}{{unit}}"\'' in txt, svg, got=[t for t in txt if 'width=' in t], want='width="{width}{unit}" height="{height}{unit}"')
+    yield ob('SVG viewBox', f'f\' viewBox="0 0 {{{wh[0]}}} {{{wh[1]}}}"\'' in txt, svg, got=[t for t in txt if 'viewBox' in t], want='viewBox="0 0 {width} {height}"')
     for w in VEC[:3]:
         fn = fx.fn('writers', w)
         a = [s for s in fn.body if isinstance(s, ast.Assign) and pat.match(s.value, '_valid_width_height_and_border(matrix_size, scale, border)') is not None
-             and ast.unparse(s.targets[0]) in ('(width, height, border)', 'width, height, border')]
+             and isinstance(s.targets[0], ast.Tuple) and len(s.targets[0].elts) == 3]
         yield ob(f'{w}: width, height, border = _valid_width_height_and_border(matrix_size, scale, border)', len(a) == 1, fn, got=len(a), want=1)
     eps = fx.fn('writers', 'write_eps')
-    bb = [ast.unparse(c.args[0]) for c in src.calls_in(eps, 'writeline') if 'BoundingBox' in ast.unparse(c)]
-    yield ob('EPS BoundingBox', bb == ["f'%%BoundingBox: 0 0 {width} {height}'"], eps, got=bb, want=["f'%%BoundingBox: 0 0 {width} {height}'"])
-    st = {ast.unparse(s.targets[0]): ast.unparse(s.value) for s in eps.body if isinstance(s, ast.Assign)}
-    yield ob('EPS stroke colour from dark', st.get('stroke_color') == 'dark if stroke_color_is_black else rgb_to_floats(dark)' and st.get('stroke_color_is_black') == '_color_is_black(dark)', eps,
-             got=(st.get('stroke_color'), st.get('stroke_color_is_black')), want='rgb_to_floats(dark) unless black')
+    whe = nf.unpack_targets(eps, lambda c: src.call_name(c) == '_valid_width_height_and_border')
+    need(whe is not None and len(whe) == 3, 'write_eps: size unpacking')
+    bb = [ast.unparse(c.args[0]) for c in src.calls_in(eps) if c.args and 'BoundingBox' in ast.unparse(c.args[0]) and isinstance(c.args[0], ast.JoinedStr)]
+    yield ob('EPS BoundingBox', bb == [f"f'%%BoundingBox: 0 0 {{{whe[0]}}} {{{whe[1]}}}'"], eps, got=bb, want=["f'%%BoundingBox: 0 0 {width} {height}'"])
+    sw = [c for c in src.calls_in(eps) if pat.match(c, "writeline('{0:f} {1:f} {2:f} setrgbcolor'.format(*H_c))") is not None]
+    c_ = single(sw, 'EPS stroke colour line')
+    sc_ = pat.match(c_, "writeline('{0:f} {1:f} {2:f} setrgbcolor'.format(*H_c))")['c']
+    yield ob('EPS stroke colour from dark', nf.same_inlined(eps, sc_, 'dark if _color_is_black(dark) else rgb_to_floats(dark)')
+             and nf.guard_is([(nf.inline(eps, t), pol) for t, pol in nf.guards_of(c_, eps) if not isinstance(t, ast.Name) or True][-1:], 'not _color_is_black(dark)'), c_,
+             got=ast.unparse(nf.inline(eps, sc_)), want='rgb_to_floats(dark) unless black')
     pdf = fx.fn('writers', 'write_pdf')
     rg = [ast.unparse(s) for s in src.statements(pdf.body) if isinstance(s, ast.Expr) and isinstance(s.value, ast.Call) and 'RG' in ast.unparse(s)]
     g = [s for s in pdf.body if isinstance(s, ast.If) and 'RG' in ast.unparse(s)]
-    yield ob('PDF stroke colour from dark', rg == ["append_cmd('{} {} {} RG'.format(*to_pdf_color(dark)))"] and len(g) == 1 and nf.norm(g[0].test) == 'not _color_is_black(dark)', pdf,
+    yield ob('PDF stroke colour from dark', rg == ["append_cmd('{} {} {} RG'.format(*to_pdf_color(dark)))"] and len(g) == 1 and nf.same(g[0].test, 'not _color_is_black(dark)'), pdf,
              got=rg, want=["append_cmd('{} {} {} RG'.format(*to_pdf_color(dark)))"])
     tex = fx.fn('writers', 'write_tex')
     lw = [ast.unparse(c.args[0]) for c in src.calls_in(tex, 'write') if 'pgfsetlinewidth' in ast.unparse(c)]
